@@ -229,6 +229,42 @@ func (e *Engine) localByName(f *ssa.Function, name string) *ssa.Alloc {
 	return idx[name]
 }
 
+// localByNameAt resolves a local variable name for a contract clause attached to loop l: when several locals share the
+// name, the one declared inside the loop statement wins, else the last one declared before it.
+func (e *Engine) localByNameAt(f *ssa.Function, name string, l *Loop) *ssa.Alloc {
+	first := e.localByName(f, name)
+	if first == nil || l == nil || !l.SrcPos.IsValid() {
+		return first
+	}
+	var inside, before *ssa.Alloc
+	for _, b := range f.Blocks {
+		for _, in := range b.Instrs {
+			a, ok := in.(*ssa.Alloc)
+			if !ok || a.Comment != name || !a.Pos().IsValid() {
+				continue
+			}
+			switch {
+			case a.Pos() >= l.SrcPos && a.Pos() < l.SrcEnd:
+				if inside == nil || a.Pos() < inside.Pos() {
+					inside = a
+				}
+			case a.Pos() < l.SrcPos:
+				if before == nil || a.Pos() > before.Pos() {
+					before = a
+				}
+			}
+		}
+	}
+	if inside != nil {
+		// a variable declared in an enclosing position but textually inside an inner loop of l is still the closest match
+		return inside
+	}
+	if before != nil {
+		return before
+	}
+	return first
+}
+
 // isLocalCell reports whether an Alloc can be kept as a symbolic local (its address never escapes).
 func (e *Engine) isLocalCell(a *ssa.Alloc) bool {
 	if v, ok := e.cellCache[a]; ok {
